@@ -64,6 +64,17 @@ class Evaluator:
         return v
 
     def lkey(self, n):
+        """key of an lvalue expression (see _lkey_raw); a by-reference parameter bound to a record object of the caller is
+        an alias of that object: keys rooted at the parameter are rewritten to the caller's designator"""
+        k_ = self._lkey_raw(n)
+        al = getattr(self, "alias", None)
+        if al and isinstance(k_, str):
+            root = k_.split(".")[0].split("[")[0]
+            if root in al:
+                k_ = al[root] + k_[len(root):]
+        return k_
+
+    def _lkey_raw(self, n):
         """key of an lvalue expression: subscripts are evaluated; in heap mode `p->f` is keyed by the value of p"""
         f = self.f
         n = f.strip(n, casts=False)
@@ -461,6 +472,13 @@ class Evaluator:
                                 senv[k_[len(prefix):]] = v
                 senv.update({q["name"]: self.wrap(v, q["ct"]) if isinstance(v, int) else v for q, v in zip(g.params, args) if v is not None})
                 sub = Evaluator(self.prog, g, env=senv, calls=self.calls)
+                sub.alias = {}
+                for q, a, v in zip(g.params, f.args(n), args):
+                    if v is None and q["ct"].rstrip().endswith("&"):
+                        try:
+                            sub.alias[q["name"]] = self.lkey(a)        # reference to an object of the caller
+                        except Unknown:
+                            pass
                 sub.inline = inl
                 sub._parent = self
                 sub._depth = getattr(self, "_depth", 0) + 1
